@@ -749,6 +749,16 @@ def selectorAppend : List SelList → Except RErr SelList
 
 /-! ### printer (Display impls: simple.rs:75, 446; compound.rs:19; complex.rs:78; list.rs:45) -/
 
+/-- The model keeps an attribute's value and its modifier (`[t="v w" i]`, attribute.rs:139–157) in
+    one opaque name: value, then U+0001 and the modifier letter.  Printed like attribute.rs:168:
+    bare when the value is an identifier, double-quoted otherwise, then ` i`. -/
+def attrValueText (v : Name) : List Char :=
+  let val := v.takeWhile (· ≠ '\x01')
+  let md := (v.dropWhile (· ≠ '\x01')).drop 1
+  let isId := !val.isEmpty && val.all (fun c => c.isAlphanum || c == '_' || c == '-') &&
+    !(val.head?.map Char.isDigit).getD false
+  (if isId then val else '"' :: val ++ ['"']) ++ (if md.isEmpty then [] else ' ' :: md)
+
 def PName.text : PName → Name
   | .not => "not".toList | .is => "is".toList | .where_ => "where".toList
   | .matches => "matches".toList | .any => "any".toList
@@ -763,7 +773,7 @@ def renderS : Simple → List Char
   | .cls n => '.' :: n
   | .id n => '#' :: n
   | .attr n none => '[' :: n ++ [']']
-  | .attr n (some v) => '[' :: n ++ '=' :: v ++ [']']
+  | .attr n (some v) => '[' :: n ++ '=' :: attrValueText v ++ [']']
   | .pclass n => ':' :: n
   | .pelem n => ':' :: ':' :: n
   | .placeholder n => '%' :: n
@@ -844,9 +854,16 @@ def pAttr (cs : List Char) : Option (Simple × List Char) :=
         | _ => pIdent r'
       match val with
       | some (v, r'') =>
+        if v.contains '\x01' then none else
         match skipWs r'' with
-        | ']' :: r3 => if v.all isIdentChar && !v.isEmpty then some (.attr n (some v), r3) else none
-        | _ => none
+        | ']' :: r3 => some (.attr n (some v), r3)
+        | m :: r3 =>
+          if m.isAlpha then
+            match skipWs r3 with
+            | ']' :: r4 => some (.attr n (some (v ++ ['\x01', m])), r4)
+            | _ => none
+          else none
+        | [] => none
       | none => none
     | _ => none
 
@@ -1258,6 +1275,18 @@ def handle : List String → String
     | some x, some y, some seed, some n, some exh =>
       verdict (ctxUniverse [x, y] seed n exh) (fun p => matchesList x p || matchesList y p)
         (fun p => matchesList x p == matchesList y p)
+    | _, _, none, _, _ => "bad-op"
+    | _, _, _, none, _ => "bad-op"
+    | _, _, _, _, none => "bad-op"
+    | _, _, _, _, _ => "unsupported"
+  | ["equivspec", a, b, seed, n, exh] =>
+    -- same matched contexts and, on each, the same highest specificity among the matching complexes
+    match decodeSel a, decodeSel b, seed.toNat?, n.toNat?, parseBool? exh with
+    | some x, some y, some seed, some n, some exh =>
+      let top := fun (l : SelList) (p : Ctx) =>
+        (l.filter (matchesComplex · p)).foldl (fun m c => Nat.max m (specComplex c).2) 0
+      verdict (ctxUniverse [x, y] seed n exh) (fun p => matchesList x p || matchesList y p)
+        (fun p => matchesList x p == matchesList y p && top x p == top y p)
     | _, _, none, _, _ => "bad-op"
     | _, _, _, none, _ => "bad-op"
     | _, _, _, _, none => "bad-op"
